@@ -24,12 +24,9 @@ Lemma mp4_total (cfg : config) (lenient : bool) (inp : input) (fuel : nat) :
   end.
 Proof.
   intros Hm Hl Hc.
-  apply (sanitize_total inp lenient U64MAX' cfg); try assumption.
-  - rewrite U64MAX'_eq; exact Hl.
-  - rewrite U64MAX'_eq; lia.
-  - exact moov_check_quiet.
-  - exact moov_check_put.
-  - exact each_trak_shift_quiet.
+  assert (Hms : ilen inp <= U64MAX') by (rewrite U64MAX'_eq; exact Hl).
+  assert (Hms64 : U64MAX' <= U64MAX) by (rewrite U64MAX'_eq; lia).
+  exact (sanitize_total inp lenient U64MAX' cfg Hms Hms64 Hc Hm moov_check_quiet moov_check_put each_trak_shift_quiet fuel).
 Qed.
 
 Theorem C09_mp4_toplevel_no_panic :
